@@ -12,7 +12,7 @@ META = {
             "whitelist, the per-key ordered transfer relation (keys lower-cased when appended, base values before appended ones, "
             "byte-exact values, no splitting at commas), base64 (padded or unpadded) and a model of the sending / receiving "
             "transport. TLC enumerates every metadata list of <= 2 entries over 7 keys (plain, -bin, te, :path, user-agent, "
-            "upper-case, illegal character) x 4 values (empty, 'a', bytes 00 FF, 'a,b') x {base map, appended} and the header lists "
+            "upper-case, illegal character) x 4 values (empty, 'a', bytes 00 FF, 'a,b') x {base map, appended}, lists over illegal keys ending in -bin (K-bin, k@-bin, 'k k-bin'), appended pairs in one or in separate AppendToOutgoingContext calls, and the header lists "
             "a raw peer sends (padded / unpadded base64, duplicates, reserved names) plus lists over the keys host / connection, checks the mechanism against the clauses "
             "I_Transfer, I_NoLeak, I_Reject, I_Peer (negative control: a sender that does not drop reserved names), the "
             "enumerated cases are executed end to end (real client <-> real server over bufconn: request metadata, response "
@@ -46,8 +46,8 @@ def table(ctx, cfg):
     g = ctx.dump_graph("WireMetaMC", cfg, workers=4)
     cases = []
     for nid in sorted(g.nodes, key=lambda x: g.nodes[x]):
-        st = parse_tla_state(g.nodes[nid], only={"kind", "md", "valid"})
-        cases.append({"kind": st["kind"], "md": st["md"], "valid": st["valid"]})
+        st = parse_tla_state(g.nodes[nid], only={"kind", "md", "valid", "grp"})
+        cases.append({"kind": st["kind"], "md": st["md"], "valid": st["valid"], "grp": st["grp"]})
     if not cases:
         raise Inconclusive("TLC enumerated no case for " + cfg)
     return cases
@@ -57,8 +57,8 @@ def run(ctx):
     cases = table(ctx, "WireMetaMC.cfg")   # this TLC run is also the exhaustive check of the invariants
     ctx.neg("WireMetaMC", "WireMetaNeg.cfg", expect="I_NoLeak", workers=2)
     if not ctx.quick():
-        seen = {json.dumps([c["kind"], c["md"]], sort_keys=True) for c in cases}
-        cases += [c for c in table(ctx, "WireMetaMCT.cfg") if json.dumps([c["kind"], c["md"]], sort_keys=True) not in seen]
+        seen = {json.dumps([c["kind"], c["md"], c["grp"]], sort_keys=True) for c in cases}
+        cases += [c for c in table(ctx, "WireMetaMCT.cfg") if json.dumps([c["kind"], c["md"], c["grp"]], sort_keys=True) not in seen]
     ctx.rng.shuffle(cases)   # all cases share the connections: the order is seeded
     for i, c in enumerate(cases):
         c["id"] = i
@@ -81,7 +81,7 @@ def run(ctx):
             raise Inconclusive("driver recorded %s for case %s" % ([r["ev"] for r in rs], c))
         if any(r.get("md") != c["md"] for r in rs if r["ev"] != "panic"):
             raise Inconclusive("driver executed something else than case %s" % c)
-        ctx.count([c["kind"], c["md"]], nontrivial=bool(c["md"]))
+        ctx.count([c["kind"], c["md"], c["grp"]], nontrivial=bool(c["md"]))
     for r in rows[:: max(1, len(rows) // 4)][:4]:
         ctx.sample(r)
     validate_known(ctx, "WireMetaTrace", "WireMetaTrace.cfg", rows, WEAK, "metadata transfer", name="c09")
